@@ -23,6 +23,9 @@ def run(tier, seed):
         P['ok'] = False
         P['log'] = 'translator failed closed: ' + tr_msg
         P['discharged'] = 0     # the regenerated model could not be produced: nothing is proved about the current source
+    # extra theorem (not a property): C03 o C01 composition, coq/Props/E2E.v; recorded, never an alarm of C01
+    e2e_ok, e2e_log = C.coq_make(['Props/E2E.vo'], timeout=900)
+    R.coverage['extra_theorems'] = {'Props/E2E.v:E2E_declared_claims_follow_from_declared_axioms': 'checked' if e2e_ok else 'NOT checked: ' + e2e_log[-400:]}
     tie = T.Tie(R)
     if not tie.ready:
         R.violation('tie-build-failed', 'could not build model or Rust harness',
